@@ -987,6 +987,16 @@ def _avoid_known_grouping(case):
         _shape_late_eligible(case)
     if case.get("scenario") == "default-filter" and len(case["blocks"]) >= 2:
         _shape_default_filter(case)
+    if case.get("scenario") == "temp-isotope":
+        # shape built on purpose: temperature groups exist and the xs type of block 0 has an 'A' entry whose
+        # xsTempIsotope is not U238 (structure / coolant nuclides sit at other temperatures than the fuel)
+        bl = [dict(b) for b in case["blocks"]]
+        entry = {"type": bl[0]["xs"], "env": "A", "geometry": "0D", "rep": case["rep"], "filter": 0, "byComponent": False,
+                 "tempIsotope": case["scenarioIsotope"]}
+        case.update(tempGroups=list(case["tempGroups"]) or [250, 350, 450, 550, 650], xsPool=[],
+                    control=[entry] + [c for c in case["control"] if c["type"] != bl[0]["xs"]])
+        if case["profile"] == "many":
+            case["tempGroups"] = [200, 300, 400, 500, 600]
     return case
 
 
@@ -1086,7 +1096,7 @@ def grouping_strategy(tier):
         "rep": st.sampled_from(["Median", "Average", "FluxWeightedAverage"]),
         "filter": st.sampled_from([0, 1, 0, 2, 0, 3, 0, 4, 0, 5, 0, 6, 0, 7, 0, 8]),  # 0 = no validBlockTypes: the geometry's default applies
         "byComponent": st.booleans(),
-        "tempIsotope": st.sampled_from(["U238", "U238", "U235", "ZR90", "FE56"]),
+        "tempIsotope": st.sampled_from(["FE56", "U238", "NA23", "ZR90", "FE56", "CR52", "NA23", "U235"]),
     })
     step = st.fixed_dictionaries({
         # per block: [0, _] keep the burnup, [1, d] burn d % more, [2, v] set it, [3, j] take the burnup another block
@@ -1115,7 +1125,8 @@ def grouping_strategy(tier):
         "perturb": st.one_of(st.none(), st.lists(st.integers(0, 11), min_size=1, max_size=6)),
         # the one-letter xs types of the core (block and entry letters are folded into this pool, so that groups hold
         # several blocks of different kinds); [] = every letter as drawn
-        "scenario": st.sampled_from([None, None, "late-eligible", "default-filter"]),
+        "scenario": st.sampled_from([None, "temp-isotope", "late-eligible", "default-filter", None, "temp-isotope"]),
+        "scenarioIsotope": st.sampled_from(["FE56", "NA23", "CR52", "ZR90", "FE56", "NA23"]),
         "scenarioGeometry": st.sampled_from(["1D cylinder", "0D", "2D hex", "1D cylinder"]),
         "xsPool": st.one_of(st.just([]), st.lists(st.sampled_from(["A", "B", "Z", "a", "c", "z"]), min_size=1, max_size=3, unique=True),
                             st.sampled_from(["A", "B", "a", "z"]).map(lambda x: [x])),
